@@ -14,7 +14,7 @@ def add(pid, technique, text, note, ref):
 TRUST = "Trusted base: CPython 3.12 + sys.monitoring, numpy/scipy linear algebra, networkx containers, and the small reference models in vlib/ref (cross-checked against each other by vlib.ref.selftest before every run). "
 
 add("C17", "runtime monitoring: boundary monitors on fidelity/trace_distance/partial_trace/Infidelity with an independent dense reference oracle over generated density matrices",
-    "Every call of the monitored functions on tens of thousands (thorough: ~10^6) of generated pure/mixed/rank-deficient/near-pure/commuting/orthogonal/stabilizer pairs, triples and (state, subset) cases is compared with a reference written from the textbook definitions; symmetry, range, metric axioms and Fuchs-van de Graaf are asserted on the observed values. Held on the observed executions only.",
+    "Every call of the monitored functions on tens of thousands (thorough: ~10^6) of generated pure/mixed/rank-deficient/near-pure/commuting/orthogonal/stabilizer pairs, triples and (state, subset) cases is compared with a reference written from the textbook definitions; symmetry, range, metric axioms and Fuchs-van de Graaf are asserted on the observed values. Held on the observed executions only. Array results are overwritten by the harness once copied: later answers must not depend on it.",
     TRUST + "Tolerances 1e-7 (5e-6 on mixed-state fidelity values because of the sqrt conditioning).", "DESIGN.md section 5, C17")
 
 add("C20", "runtime monitoring: exhaustive enumeration of the finite single-qubit Clifford library through the real lookup/simplify functions and one-wrapper compiles on both backends, judged by an independent matrix oracle",
@@ -52,7 +52,7 @@ add("C01", "runtime monitoring: lock-step online checker - sys.monitoring probes
     TRUST + "Probabilistic runs are judged conditioned on the outcomes drawn; outcome frequencies are not judged.", "DESIGN.md section 5, C01")
 
 add("C12", "runtime monitoring: invariant-at-a-hook / history checker - after every edit of a generated edit history the live CircuitDAG is walked by an independent structural checker and compared with the harness' own specification of each register wire",
-    "All edit histories of length <=2 (thorough <=3, ~40k histories) over a fixed 35-edit alphabet and random histories up to 200 edits over {add, insert_at on compatible edges, remove_op, replace_op, unwrap_nodes, group_one_qubit_gates, remove_identity, register additions, copy, assign_noise}. After every edit: acyclic, sources/sinks are the register inputs/outputs, each wire is a single path visiting exactly the specified operations in the specified order (object identity where known), edge_dict and node_dict agree with the graph, sequence() is a topological order, depth and register_depth equal the oracle's dynamic programme, register counts only change through register additions. Also: edits the API documents as rejected (wrong edge count, other registers, skipped register index) must leave the circuit unchanged; the label query functions are asked after every edit; the repository's own test suite runs under the passive DAG monitor.",
+    "All edit histories of length <=2 (thorough <=3, ~40k histories) over a fixed 35-edit alphabet and random histories up to 200 edits over {add, insert_at on compatible edges, remove_op, replace_op, unwrap_nodes, group_one_qubit_gates, remove_identity, register additions, copy, assign_noise}. After every edit: acyclic, sources/sinks are the register inputs/outputs, each wire is a single path visiting exactly the specified operations in the specified order (object identity where known), edge_dict and node_dict agree with the graph, sequence() is a topological order, depth and register_depth equal the oracle's dynamic programme, register counts only change through register additions. Also: edits the API documents as rejected (wrong edge count, other registers, skipped register index) must leave the circuit unchanged; the label query functions are asked after every edit; the repository's own test suite runs under the passive DAG monitor. The source of every copy is kept and re-checked after each later edit on the copy.",
     TRUST + "register_depth (exponential-time in graphiq) is only queried on circuits with <=28 nodes.", "DESIGN.md section 5, C12")
 
 add("C18", "runtime monitoring: boundary monitors on the nine cost-metric classes (default and explicit construction) and on depth / register_depth, judged by an independent cost oracle over the harness' own operation lists",
@@ -64,11 +64,11 @@ add("C14", "runtime monitoring: boundary monitors on the exporters / importers w
     TRUST + "qiskit.qasm2 is trusted as 'standard openQASM 2.0 semantics'.", "DESIGN.md section 5, C14")
 
 add("C13", "runtime monitoring: (a) rewrite equivalence judged through the lock-step compile monitor and the reference; (b) offline history checker - before and after every call of a random interleaving of library calls on a pool of shared objects, fingerprints of ALL pool objects are recorded and any change of an object the call must not modify is a refutation",
-    "(a) Each rewrite (copy, unwrap_nodes, group_one_qubit_gates, remove_identity, assign_noise with an empty map) of generated programs is compiled under forced outcomes by both backends and compared with the original, whose own compile is judged against the reference; repeated compiles must agree. (b) Histories of 5-25 calls over {compile with both backends / noise on-off / initial states, metric evaluation, TimeReversedSolver on targets in all three representations, assign_noise, MonteCarloNoise, compare, export, rewrites on copies} with fingerprints (operations, labels, wrapper contents, attached noise; denoted state of targets and initial states; noise maps) of every pool object after every call.",
+    "(a) Each rewrite (copy, unwrap_nodes, group_one_qubit_gates, remove_identity, assign_noise with an empty map) of generated programs is compiled under forced outcomes by both backends and compared with the original, whose own compile is judged against the reference; repeated compiles must agree. (b) Histories of 5-25 calls over {compile with both backends / noise on-off / initial states, metric evaluation, TimeReversedSolver on targets in all three representations, assign_noise, MonteCarloNoise, compare, export, rewrites on copies} with fingerprints (operations, labels, wrapper contents, attached noise; denoted state of targets and initial states; noise maps) of every pool object after every call. Half of the pools hold a target graph whose nodes were created out of sorted order.",
     TRUST + "Compiler objects are configuration and are not fingerprinted.", "DESIGN.md section 5, C13")
 
 add("C15", "runtime monitoring: boundary monitors on every comparison / de-duplication entry point over generated (circuit, perturbation) pairs and lists, judged by an independent behavioural-equivalence oracle (all measurement branches on several probe inputs, register renamings enumerated for the isomorphism method)",
-    "Pairs (c, perturbed c) - swapped control/target, gate moved to another same-type register or across a neighbour, wrapped/unwrapped, identities, registers exchanged, classical-control direction flipped, replaced gates, independent circuits - go through compare with methods direct, is_isomorphic and (small circuits) GED; every 'equal' answer is checked against the oracle, plus reflexivity on copies, symmetry and insensitivity to wrapping/identities; remove_redundant_circuits and CircuitStorage must only drop circuits that are equivalent to one they keep.",
+    "Pairs (c, perturbed c) - swapped control/target, gate moved to another same-type register or across a neighbour, wrapped/unwrapped, identities, registers exchanged, classical-control direction flipped, replaced gates, independent circuits - go through compare with methods direct, is_isomorphic and (small circuits) GED; every 'equal' answer is checked against the oracle, plus reflexivity on copies, symmetry and insensitivity to wrapping/identities; remove_redundant_circuits and CircuitStorage must only drop circuits that are equivalent to one they keep. Each CircuitStorage also gets a kept circuit edited in place and is then offered its old version.",
     TRUST + "Equivalence is decided on three probe inputs (can hide, never fake, a violation).", "DESIGN.md section 5, C15")
 
 add("C02", "runtime monitoring: boundary monitor on TimeReversedSolver.solve; the returned circuit is judged by enumerating ALL measurement-outcome branches with the independent reference semantics and by lock-step monitored compiles on both backends; tableau and DAG monitors run inside solve()",
